@@ -79,7 +79,7 @@ def run(ctx):
                 cases.append(("abbreviations×decorations", pre + s + post, ("ok", k, neg), False))
 
         # 2. formula spellings with junk (the theorem C16_formula quantifies over all of them)
-        n_styles = 3 if ctx.tier == "quick" else 40
+        n_styles = 3 if ctx.tier == "quick" else 200
         reqs, meta = [], []
         for k in keys:
             for ops in itertools.product("ca", repeat=3):
@@ -108,7 +108,7 @@ def run(ctx):
             ctx.dist("formula:deco=" + repr((pre, post)))
 
         # 3. arbitrary strings over the model alphabet, and mutated spellings
-        n_arb = 4000 if ctx.tier == "quick" else 60000
+        n_arb = 4000 if ctx.tier == "quick" else 400000
         toks = ["x", "y", "<", "=", "≤", "<=", "==", " ", "not", "is", "!", "x1", "y2", "(", ")", "after", "in", "n", "X", "Y", "\t", "_", "is ", " not"]
         for i in range(n_arb):
             mode = i % 4
@@ -177,7 +177,7 @@ def run(ctx):
         ctx.sample({"input": "x>y", "impl": real_call(np_mod, cs, "x>y"), "model": model_out(drv.call("c16.model", s="x>y"))})
 
         # 4. implementation-only Unicode stream: no exception other than ValueError
-        n_uni = 2000 if ctx.tier == "quick" else 30000
+        n_uni = 2000 if ctx.tier == "quick" else 200000
         pool = ["İ", "K", "ß", " ", " ", "\x1c", "\x85", "Ｘ", "ｙ", "≦", "＝", "​", "é", "𝑥", "퟿", "\x00", "x", "y", "<", "=", "≤", " ", "not", "is", "!"]
         for _ in range(n_uni):
             s = "".join(rng.choice(pool) for _ in range(rng.randrange(0, 9)))
